@@ -12,6 +12,7 @@ from ..oracles import tb
 from ..rust import build
 from ..rust.hx import Hx, hexs
 
+READY = True
 LEVEL = 'exploration'
 TECHNIQUE = 'differential runtime monitoring: real checker (harness including lib.rs + checker binary) vs executable reference machine, exhaustive short programs + mutation + state-directed streams'
 LEVEL_TEXT = ('Every explored byte triple is executed by the checker compiled from the current tree and by an independent '
